@@ -264,6 +264,15 @@ Definition type_from_json (reg : list (N * string)) (unregistered : N) (s : stri
   | Some (t, _) => t
   | None => match parse_uint64 s with Some t => t | None => unregistered end
   end.
+(* reading with the JSON aliases of the tree (RegisterCaveatJSONAlias): further names, looked up after the registered ones *)
+Definition type_from_json_al (reg : list (N * string)) (aliases : list (string * N)) (unregistered : N) (s : string) : N :=
+  match find (fun e => String.eqb (snd e) s) reg with
+  | Some (t, _) => t
+  | None => match find (fun e => String.eqb (fst e) s) aliases with
+            | Some (_, t) => t
+            | None => match parse_uint64 s with Some t => t | None => unregistered end
+            end
+  end.
 (* what a registry must satisfy for the round trip: looking an entry's name up gives its type back, and no name is a
    decimal numeral (it would shadow a user-defined type's number) *)
 Definition is_decimal (s : string) : bool := match NilZero.uint_of_string s with Some _ => true | None => false end.
@@ -276,5 +285,5 @@ Definition reg_ok (reg : list (N * string)) : bool :=
    types the harness registers at the bottom, the middle and the top of the user range *)
 Definition facts_reg : list (N * string) := map (fun e => (fst (fst (fst e)), snd (fst (fst e)))) registered.
 Definition harness_reg : list (N * string) :=
-  [(f_cav_min_user_defined + 7, "HarnessLow"%string); (2 ^ 63 + 7, "HarnessMid"%string); (f_cav_max_user_defined, "HarnessMax"%string)].
+  [(f_cav_min_user_defined, "HarnessLow"%string); (2 ^ 63 + 7, "HarnessMid"%string); (f_cav_max_user_defined, "HarnessMax"%string)].
 Definition all_reg := facts_reg ++ harness_reg.
